@@ -8,7 +8,8 @@ from __future__ import annotations
 
 PROPERTY = "C13"
 RULE = (
-    "all six directions x {uniform, gaussian} x {CW, pulsed}; random transverse polarisation, 15-24 cells per "
+    "all six directions x {uniform, gaussian} x {CW, pulsed}; random transverse polarisation given as E or H vector of "
+    "unit or arbitrary length, 15-24 cells per "
     "wavelength in the medium, eps in [1,4]; Gaussian radius in [0.3,1.0] wavelengths (always incl. exactly 0.3). "
     "distinct = (axis, direction, source kind, profile, resolution bucket, eps bucket); non-trivial iff forward "
     "power > 0"
@@ -40,6 +41,9 @@ def cases(tier, rng):
                         "eps": float(rng.choice([1.0, rng.uniform(1.0, 4.0)])),
                         "radius_wl": 0.3 if (rep == 0 or rng.random() < 0.3) else float(rng.uniform(0.3, 1.0)),
                         "angle": float(rng.uniform(0, 6.283)),
+                        # the polarisation is a direction: its length (not normalised by the user) must not matter
+                        "pol_length": float(rng.choice([1.0, 0.5, 1.4142135623730951, 2.5, rng.uniform(0.2, 4.0)])),
+                        "pol_given_as": ["e_pol", "h_pol"][int(rng.integers(2))],
                         "seed": int(rng.integers(1 << 30)),
                     }
                 )
@@ -99,7 +103,8 @@ def _one(c, r):
     lo[a], hi[a] = pos, pos + 1
     pol = [0.0, 0.0, 0.0]
     pol[t[0]], pol[t[1]] = float(np.cos(c["angle"])), float(np.sin(c["angle"]))
-    src = {"kind": c["kind"], "lo": lo, "hi": hi, "direction": c["direction"], "wavelength": wl, "e_pol": pol}
+    pol = [x * c.get("pol_length", 1.0) for x in pol]
+    src = {"kind": c["kind"], "lo": lo, "hi": hi, "direction": c["direction"], "wavelength": wl, c.get("pol_given_as", "e_pol"): pol}
     if c["kind"] == "gaussian":
         src["radius"] = c["radius_wl"] * wl
     if c["profile"] == "pulse":
@@ -126,7 +131,8 @@ def _one(c, r):
         Pf, Pb = pf.sum(), pb.sum()
     ratio = abs(Pb) / abs(Pf) if Pf != 0 else float("inf")
     limit = 1e-3 if c["kind"] == "uniform" else 0.1
-    sig = (a, c["direction"], c["kind"], c["profile"], int(c["cells_per_wl"] // 3), int(c["eps"]))
+    sig = (a, c["direction"], c["kind"], c["profile"], int(c["cells_per_wl"] // 3), int(c["eps"]), c.get("pol_given_as"), c.get("pol_length", 1.0) == 1.0)
+    r.branch("pol:" + c.get("pol_given_as", "e_pol") + (":unit" if c.get("pol_length", 1.0) == 1.0 else ":non_unit_length"))
     r.branch(f"{c['kind']}:{c['profile']}")
     r.branch(f"axis{a}{c['direction']}")
     r.worst("worst_back_over_front_" + c["kind"], ratio)
